@@ -159,12 +159,41 @@ def check_indicators(rep, repo):
     if rv[0] == 'cat':
         parts = [p for p in rv[1] if p != ('list', ())]
         comp = parts[0] if len(parts) == 1 else rv
+    from ..genfacts import bind_api
+    recognised = False
+    def branches(t):
+        if t[0] == 'ite':
+            return branches(t[2]) + branches(t[3])
+        return [t]
+    alts = [x for x in branches(comp) if x not in (('list', ()), NONE)]
+    if len(alts) == 1:
+        comp = alts[0]
     if comp[0] == 'comp' and len(comp[1]) == 1:
         b, g = comp[1][0]
         v = comp[2]
         if b[3] == S(params[0]) and g == TRUE and v[0] == 'call' and show(v[1]).endswith('random.choice') and len(v[2]) >= 1:
-            size = v[2][1] if len(v[2]) >= 2 else dict(v[3]).get('size')
+            recognised = True
+            size = (bind_api(v) or {}).get('size') or (v[2][1] if len(v[2]) >= 2 else dict(v[3]).get('size'))
             ok = size == CALL(S('len'), [b])
+    elif comp[0] == 'call' and show(comp[1]) in ('np.split', 'numpy.split', 'np.array_split') and len(comp[2]) == 2:
+        # one draw of sum(len) indicators, cut at the cumulative list lengths: piece k has len(list k) entries
+        draw, cuts = comp[2]
+        lens = None
+        def is_lens(t):
+            return t[0] == 'comp' and len(t[1]) == 1 and t[1][0][1] == TRUE and t[1][0][0][3] == S(params[0]) and t[2] == CALL(S('len'), [t[1][0][0]])
+        ba = bind_api(draw) or {}
+        size = ba.get('size')
+        tot_ok = size is not None and size[0] == 'call' and size[1] in (S('sum'),) and len(size[2]) == 1 and is_lens(size[2][0])
+        cut_ok = False
+        if cuts[0] == 'slice' and cuts[2] == NONE and cuts[3] == C(-1):
+            cs = cuts[1]
+            if cs[0] == 'call' and show(cs[1]) in ('np.cumsum', 'numpy.cumsum') and len(cs[2]) >= 1 and is_lens(cs[2][0]):
+                cut_ok = True
+        recognised = bool(ba)
+        ok = tot_ok and cut_ok
+    if not ok and not recognised:
+        rep.inconclusive('C13.R4', f.where, 'the indicator vectors are drawn in a recognised way', got=got[:160])
+        return
     rep.check(ok, 'C13.R4', f.where, 'each list gets exactly len(list) tie indicators', got=got[:200], want='[choice(choices, len(pl), p=..) for pl in pref_lists]',
               construct='indicator vector length')
 
@@ -215,7 +244,9 @@ def check_call_sites(rep, repo, fw, wf, rf):
                     for r_ in branches(ce.ret):
                         if r_[0] == 'tuple' and len(r_[1]) >= 2:
                             for i_ in range(len(r_[1]) - 1):
-                                produced.add((r_[1][i_], r_[1][i_ + 1]))
+                                for x_ in branches(r_[1][i_]):
+                                    for y_ in branches(r_[1][i_ + 1]):
+                                        produced.add((x_, y_))
             pair_ok = bool(b1) and bool(b2) and all(any((x, y) in produced or contains(y, lambda z, x=x: z == x) for x in b1) for y in b2)
             rep.check(pair_ok, 'C13.R5', repo.method(cls, 'generate_instances').where, 'the indicator array passed for %s is the one drawn for the list array passed for %s' % (ta, la),
                       got='%s ; %s' % (show(A1)[:80] if A1 else None, show(A2)[:80] if A2 else None), want='ties drawn per list of that very array',
